@@ -86,7 +86,7 @@ PROPS = {
     },
     'C13': {
         'level': 'proof',
-        'explanation': 'The six window aggregators equal the same spec functions as the aggregate ones (so window and aggregate values agree by construction of the proof); and the whole pipeline is proved on the real text for one key vector and one aggregated column, any number of rows: the partition loop (invariant of aggregate plus `row_keys[i]` = key of row i), the group-map loop of the nested `compute_group_values` (domain = the first k keys; for an arbitrary but fixed group G the stored value is fn applied to exactly the values of G's bucket), `expand_to_rows`, and an exit assertion for an arbitrary row R: same row count as the input, key column reproduced unchanged (same objects), and the value of row R is the aggregator spec of R's group - the same spec function the aggregate proof (C12) uses, so window and aggregate agree by construction. SUM in the quick tier, MEAN / MIN / MAX / COUNT in the thorough tier. STDEV, several keys / columns, custom apply functions and naming are bounded only (interleaved groups, None keys, equal-but-distinct keys).',
+        'explanation': 'The six window aggregators equal the same spec functions as the aggregate ones (so window and aggregate values agree by construction of the proof); and the whole pipeline is proved on the real text for one key vector and one aggregated column, any number of rows: the partition loop (invariant of aggregate plus `row_keys[i]` = key of row i), the group-map loop of the nested `compute_group_values` (domain = the first k keys; for an arbitrary but fixed group G the stored value is fn applied to exactly the values of the bucket of G), `expand_to_rows`, and an exit assertion for an arbitrary row R: same row count as the input, key column reproduced unchanged (same objects), and the value of row R is the aggregator spec of the group of R - the same spec function the aggregate proof (C12) uses, so window and aggregate agree by construction. SUM in the quick tier, MEAN / MIN / MAX / COUNT in the thorough tier. STDEV, several keys / columns, custom apply functions and naming are bounded only (interleaved groups, None keys, equal-but-distinct keys).',
         'trusted': ['sum/min/max/len uninterpreted; A-real'],
     },
     'C14': {
